@@ -5230,6 +5230,7 @@ class RemoteBranch(branch.Branch, _RpcHelper, lock._RelockDebugMixin):
         too, in fact doing so might harm performance.
         """
         super()._clear_cached_state()
+        self._tags_bytes = None
 
     @property
     def control_files(self):
